@@ -38,6 +38,16 @@ def conv(ty, v):
     """(ok, value) — what a conforming conversion of v to ty is; ok=False when v has no int/str reading."""
     if ty is None:
         return True, v
+    if ":" in ty:
+        base, cons = ty.split(":")
+        ok, c = conv(base, v)
+        if not ok:
+            return False, None
+        if cons == "ge0" and not c >= 0:
+            return False, None
+        if cons == "max3" and not len(c) <= 3:
+            return False, None
+        return True, c
     if STRICT[0] and ((ty == "int" and not isinstance(v, int)) or (ty == "str" and not isinstance(v, str))):
         return False, None
     if ty == "int":
@@ -45,7 +55,7 @@ def conv(ty, v):
             return False, None
         if isinstance(v, int):
             return True, v
-        if isinstance(v, str) and v.isascii() and v.isdigit():
+        if isinstance(v, str) and v.isascii() and (v.isdigit() or (v[:1] == "-" and v[1:].isdigit())):
             return True, int(v)
         return False, None
     if ty == "str":
@@ -65,13 +75,16 @@ def lit(v):
     return repr(v)
 
 
-def param_default_src(p):
-    """source of the `= ...` part, or None"""
-    has_param = p.get("alias") or p.get("alias_from") or p.get("ci") is not None or p.get("use_param")
-    if not has_param:
-        return lit(p["default"]["v"]) if p.get("default") else None
+CONS_SRC = {"ge0": "ge=0", "max3": "max_length=3"}
+
+
+def has_param(p):
+    return bool(p.get("alias") or p.get("alias_from") or p.get("ci") is not None or p.get("use_param") or p.get("cons"))
+
+
+def param_settings_src(p, with_default):
     parts = []
-    if p.get("default"):
+    if with_default and p.get("default"):
         parts.append(lit(p["default"]["v"]))
     if p.get("alias"):
         parts.append(f"alias={p['alias']!r}")
@@ -79,7 +92,48 @@ def param_default_src(p):
         parts.append(f"alias_from={list(p['alias_from'])!r}")
     if p.get("ci") is not None:
         parts.append(f"case_insensitive={bool(p['ci'])!r}")
+    if p.get("cons"):
+        parts.append(CONS_SRC[p["cons"]])
     return "Param(" + ", ".join(parts) + ")"
+
+
+def attach_of(p):
+    """how the Param is attached: as the default value, or inside Annotated[...] (first, after a doc string, nested)"""
+    return p.get("attach") if has_param(p) and p.get("ann") else None
+
+
+def param_default_src(p):
+    """source of the `= ...` part, or None"""
+    if not has_param(p) or attach_of(p):
+        return lit(p["default"]["v"]) if p.get("default") else None
+    return param_settings_src(p, True)
+
+
+def param_ann_src(p):
+    a = attach_of(p)
+    if not a:
+        return p["ann"]
+    prm = param_settings_src(p, False)
+    if a == "annotated":
+        return f"typing.Annotated[{p['ann']}, {prm}]"
+    if a == "annotated_doc":
+        return f"typing.Annotated[{p['ann']}, 'doc', {prm}]"
+    if a == "annotated_docs":
+        return f"typing.Annotated[{p['ann']}, 'doc', 7, {prm}, 'more']"
+    if a == "nested":
+        return f"typing.Annotated[typing.Annotated[{p['ann']}, 'doc'], {prm}]"
+    raise ValueError(a)
+
+
+META = {"annotated": ["param"], "annotated_doc": ["doc", "param"], "annotated_docs": ["doc", "doc", "param", "doc"],
+        "nested": ["doc", "param"]}
+
+
+def ann_id(p):
+    """the type id the oracle / model convert to: the annotation plus the constraint its Param carries"""
+    if not p.get("ann"):
+        return None
+    return p["ann"] + (":" + p["cons"] if p.get("cons") and p["kind"] in ("po", "pk", "ko") else "")
 
 
 def sig_src(params, first=None):
@@ -98,7 +152,7 @@ def sig_src(params, first=None):
             star_done = True
         s = {"vp": "*", "vk": "**"}.get(k, "") + p["name"]
         if p.get("ann"):
-            s += ": " + p["ann"]
+            s += ": " + (param_ann_src(p) if k in ("po", "pk", "ko") else p["ann"])
         d = param_default_src(p) if k in ("po", "pk", "ko") else None
         if d is not None:
             s += " = " + d
@@ -114,6 +168,28 @@ def sig_src(params, first=None):
 # `@parse @staticmethod` / `@staticmethod @parse`; method of a class decorated as a whole (apply_class)
 FIRST = {"func": None, "static": None, "static_inner": None, "inst": "self", "cls": "cls", "cls_outer": "cls",
          "klass": "self", "klass_static": None, "klass_cls": "cls"}
+
+
+def options_src(opts):
+    return "Options(" + ", ".join(f"{k}={v['type'] if isinstance(v, dict) else repr(v)}" for k, v in sorted(opts.items())) + ")"
+
+
+def build_type(d, utype, typing):
+    """a return annotation from its descriptor, with the real operators: leaves int/str/none/posint/short,
+    ["or"|"and"|"xor", a, b, …], ["not", a], ["opt", a]"""
+    from utype.parser.rule import LogicalType, Rule
+    if isinstance(d, str):
+        if d == "posint":
+            return type("PosInt", (int, Rule), {"gt": 0})
+        if d == "short":
+            return type("Short", (str, Rule), {"max_length": 3})
+        return {"int": int, "str": str, "none": type(None)}[d]
+    op, args = d[0], [build_type(a, utype, typing) for a in d[1:]]
+    if op == "opt":
+        return typing.Optional[args[0]]
+    if op == "not":
+        return LogicalType.not_of(args[0])
+    return {"or": LogicalType.any_of, "and": LogicalType.all_of, "xor": LogicalType.one_of}[op](*args)
 
 
 def build_source(case):
@@ -136,12 +212,11 @@ def build_source(case):
         elif gen.get("annot") == "iterator":
             ann = f" -> typing.{'AsyncIterator' if wrapper == 'agen' else 'Iterator'}[{y or 'typing.Any'}]"
     elif ret:
-        ann = f" -> {ret}"
+        ann = f" -> {ret}" if isinstance(ret, str) else " -> __RET__"
     opts = case.get("options") or {}
     dec_args = []
     if opts:
-        dec_args.append("options=Options(" + ", ".join(
-            f"{k}={v['type'] if isinstance(v, dict) else repr(v)}" for k, v in sorted(opts.items())) + ")")
+        dec_args.append("options=" + options_src(opts))
     if case.get("eager"):
         dec_args.append("eager=True")
     dec = "@utype.parse" + (f"({', '.join(dec_args)})" if dec_args else "")
@@ -274,6 +349,11 @@ def impl(case):
     ns["__rec__"] = rec
     ns["__echo__"] = echo
     ns["__sent__"] = lambda x: log["sent"].append(enc(x))
+    ret_d = case.get("ret")
+    RET = None
+    if ret_d:
+        RET = build_type(ret_d, utype, typing)
+        ns["__RET__"] = RET
     src = build_source(case)
     try:
         exec(src, ns)
@@ -340,6 +420,44 @@ def impl(case):
     except BaseException as e:
         out["err"] = _exc_name(e)
         out["err_cls"] = type(e).__name__
+    if RET is not None and case.get("retval") is not None and wrapper in ("sync", "coro"):
+        # the return annotation measured in isolation: what the type itself makes of the body's result, and whether the
+        # value the caller got conforms to it (the type accepts it unchanged)
+        ropts = eval(options_src({k: v for k, v in (case.get("options") or {}).items() if k != "addition"}), ns)
+        rv = case["retval"]["v"]
+        from utype.parser.rule import Rule
+        RETT = Rule.parse_annotation(annotation=RET)      # typing constructs (Optional[...]) as utype reads them
+        try:
+            out["ret_direct"] = {"ok": enc(utype.type_transform(rv, RETT, options=ropts))}
+        except BaseException as e:
+            out["ret_direct"] = {"err": _exc_name(e)}
+        if "ret" in out:
+            # Conforms (DESIGN C01): a leaf accepts the value unchanged; `|` / `^`: some argument does; `&`: the last
+            # argument does; `~t`: t rejects it; Optional: None or the argument
+            def accepts(d, v):
+                try:
+                    r = utype.type_transform(v, Rule.parse_annotation(annotation=build_type(d, utype, typing)), options=ropts)
+                    return type(r) is type(v) and r == v
+                except BaseException:
+                    return False
+
+            def conforms(d, v):
+                if isinstance(d, str):
+                    return accepts(d, v)
+                if d[0] in ("or", "xor"):
+                    return any(conforms(a, v) for a in d[1:])
+                if d[0] == "and":
+                    return conforms(d[-1], v)
+                if d[0] == "opt":
+                    return v is None or conforms(d[1], v)
+                if d[0] == "not":
+                    try:
+                        utype.type_transform(v, Rule.parse_annotation(annotation=build_type(d[1], utype, typing)), options=ropts)
+                        return False
+                    except BaseException:
+                        return True
+            got = dec(out["ret"])
+            out["ret_conforms"] = bool(conforms(ret_d, got)) if not isinstance(ret_d, str) else None
     if gen is not None and "decl_err" not in out:
         # the undecorated function driven the same way: sends converted by the oracle, hand-overs followed
         # (a yielded generator takes over and is started with next()); raw yields / return recorded
@@ -525,7 +643,7 @@ def expected(case):
     for p in case["params"]:
         n = p["name"]
         v = bound[n]
-        ty = p.get("ann")
+        ty = ann_id(p)
         if p["kind"] == "vp":
             vs = []
             for x in v:
@@ -654,6 +772,15 @@ def gen_value(rng, ty, bad=0.06):
     return rng.choice(ANY)
 
 
+def gen_pvalue(rng, p):
+    """a value for parameter p: mostly conforming; a constrained parameter also gets values that violate the constraint"""
+    if p.get("cons") == "ge0" and has_param(p) and rng.random() < 0.3:
+        return rng.choice([-1, "-2", -7])
+    if p.get("cons") == "max3" and has_param(p) and rng.random() < 0.3:
+        return rng.choice(["toolong", 12345, "abcd"])
+    return gen_value(rng, p.get("ann"))
+
+
 def gen_sig(rng, maxp=5, settings=True, under=0.25):
     n = rng.randint(0, maxp)
     # choose the kind layout: po* pk* [vp] ko* [vk]
@@ -690,8 +817,14 @@ def gen_sig(rng, maxp=5, settings=True, under=0.25):
             elif seen_default and k != "ko":
                 # Python forbids a non-default positional parameter after a default one
                 p["default"] = {"v": rng.choice([0, 2, 9])}
-            if settings and not und and k in ("pk", "ko", "po") and rng.random() < 0.3:
+            if settings and not und and k in ("pk", "ko", "po") and rng.random() < 0.4:
                 r = rng.random()
+                if p.get("ann") and rng.random() < 0.5:
+                    p["cons"] = "ge0" if p["ann"] == "int" else "max3"
+                if p.get("ann"):
+                    # every way the Param can be attached: `= Param(...)`, Annotated[T, Param], with other metadata in
+                    # front (and behind), nested Annotated
+                    p["attach"] = rng.choice([None, None, "annotated", "annotated_doc", "annotated_docs", "nested"])
                 if r < 0.45 and k != "po":
                     al = rng.choice([a for a in ALIASES if a not in used_alias] or [None])
                     if al:
@@ -706,7 +839,7 @@ def gen_sig(rng, maxp=5, settings=True, under=0.25):
                         used_alias.update(al)
                 if r > 0.7:
                     p["ci"] = rng.random() < 0.8
-                if not (p.get("alias") or p.get("alias_from") or p.get("ci") is not None):
+                if not has_param(p):
                     p["use_param"] = True
             if k in ("po", "pk"):
                 if syn_default and not p.get("default") and param_default_src(p) is None:
@@ -716,6 +849,7 @@ def gen_sig(rng, maxp=5, settings=True, under=0.25):
                         seen_default = True
                     else:
                         p["use_param"] = True
+                        p["attach"] = None         # the Param has to be the `= ...` part here
                 if param_default_src(p) is not None:
                     syn_default = True
         params.append(p)
@@ -748,7 +882,7 @@ def gen_call(rng, params, opts, near_miss=0.15):
     npos = rng.randint(must, len(pos)) if pos else 0
     if miss and rng.random() < 0.3 and npos > 0:
         npos -= 1
-    args = [gen_value(rng, p.get("ann")) for p in pos[:npos]]
+    args = [gen_pvalue(rng, p) for p in pos[:npos]]
     if vp and npos == len(pos) and rng.random() < 0.6:
         args += [gen_value(rng, vp.get("ann")) for _ in range(rng.randint(1, 3))]
     elif miss and not vp and rng.random() < 0.3:
@@ -761,7 +895,7 @@ def gen_call(rng, params, opts, near_miss=0.15):
             continue
         if miss and rng.random() < 0.15:
             continue
-        kwargs.append([spell(rng, p, opts), gen_value(rng, p.get("ann"))])
+        kwargs.append([spell(rng, p, opts), gen_pvalue(rng, p)])
     if vk and rng.random() < 0.6:
         for k in rng.sample(["m", "n", "Kx", "_u", "zz"], rng.randint(1, 2)):
             kwargs.append([k, gen_value(rng, vk.get("ann"))])
@@ -778,15 +912,15 @@ def gen_call(rng, params, opts, near_miss=0.15):
     if miss and rng.random() < 0.3 and pos[:npos]:
         p = rng.choice(pos[:npos])
         if p["kind"] == "pk":
-            kwargs.append([spell(rng, p, opts), gen_value(rng, p.get("ann"))])
+            kwargs.append([spell(rng, p, opts), gen_pvalue(rng, p)])
     if miss and rng.random() < 0.2:
         # the same parameter under two spellings
         for p in pos[npos:] + kos:
             if p["kind"] != "po" and len(accepted_names(p, opts)) > 1 and not p["name"].startswith("_"):
                 a, b = accepted_names(p, opts)[:2]
-                v = gen_value(rng, p.get("ann"))
+                v = gen_pvalue(rng, p)
                 kwargs = [kv for kv in kwargs if kv[0] not in accepted_names(p, opts)]
-                kwargs += [[a, v], [b, v if rng.random() < 0.5 else gen_value(rng, p.get("ann"))]]
+                kwargs += [[a, v], [b, v if rng.random() < 0.5 else gen_pvalue(rng, p)]]
                 break
     if miss:
         # in a near-miss a value may land on another parameter than the one it was drawn for; '' is the one value whose
@@ -828,6 +962,41 @@ def gen_options(rng, params, rate=0.35):
     return opts
 
 
+RET_LEAVES = ["int", "str", "none", "posint", "short"]
+RET_TYPES = [["not", "none"], ["and", ["or", "int", "none"], "posint"], ["xor", ["opt", "int"], ["opt", "str"]],
+             ["opt", "int"], ["or", "int", "str"], ["xor", "int", "str"], ["not", "posint"], ["or", "posint", "short"],
+             ["and", "int", "posint"], ["opt", ["or", "int", "str"]], ["or", "none", "str"], ["not", ["or", "int", "none"]],
+             ["xor", "int", "posint"], ["opt", "posint"], ["and", ["opt", "int"], ["not", "none"]],
+             ["xor", ["or", "int", "none"], ["or", "str", "none"]], ["or", ["not", "none"], "int"], ["not", ["not", "none"]]]
+RET_VALUES = [None, None, 5, "6", "x", 0, -1, "", "abcd", "7"]
+
+
+def gen_ret_type(rng, depth=2):
+    if rng.random() < 0.6:
+        return rng.choice(RET_TYPES)
+
+    def rec(d):
+        if d == 0 or rng.random() < 0.35:
+            return rng.choice(RET_LEAVES)
+        op = rng.choice(["or", "and", "xor", "not", "opt"])
+        if op in ("not", "opt"):
+            return [op, rec(d - 1)]
+        return [op] + [rec(d - 1) for _ in range(rng.choice([2, 2, 3]))]
+    t = rec(depth)
+    return t if not isinstance(t, str) else ["opt", t]
+
+
+def ret_grid_cases():
+    """every return annotation of RET_TYPES x every result value x sync / coroutine (eager and lazy)"""
+    out = []
+    for t in RET_TYPES:
+        for v in [None, 5, "6", "x", 0, -1, "", "abcd"]:
+            for wrapper, eager in (("sync", False), ("coro", False), ("coro", True)):
+                out.append({"kind": "bind", "params": [], "ctx": "func", "wrapper": wrapper, "eager": eager, "options": {},
+                            "ret": t, "retval": {"v": v}, "args": [], "kwargs": []})
+    return out
+
+
 def gen_binding_case(rng, tier="quick"):
     params = gen_sig(rng)
     opts = gen_options(rng, params)
@@ -845,6 +1014,10 @@ def gen_binding_case(rng, tier="quick"):
         elif r < 0.4:
             case["ret"] = "str"
             case["retval"] = {"v": rng.choice([5, "y"])}
+        elif r < 0.6:
+            # a logical combination as the return annotation, a result each member may judge differently (None included)
+            case["ret"] = gen_ret_type(rng)
+            case["retval"] = {"v": rng.choice(RET_VALUES)}
         else:
             case["retval"] = {"v": rng.choice([1, "r"])}
     case["args"], case["kwargs"] = gen_call(rng, params, opts)
@@ -875,7 +1048,7 @@ def gen_focus_case(rng):
         npos = sum(p["kind"] in ("po", "pk") for p in params)
         must = 1 if params[0]["name"] == "a" else 0
         n = rng.randint(must, npos)
-        args = [gen_value(rng, p.get("ann")) for p in params[:n]]
+        args = [gen_pvalue(rng, p) for p in params[:n]]
         kwargs = [["d", enc(gen_value(rng, "int"))]] if any(p["name"] == "d" for p in params) and rng.random() < 0.5 else []
         args = [enc(a) for a in args]
     else:
@@ -1138,7 +1311,20 @@ def verdict(case, out, ex, nobind_err=None):
     if out.get("first_ok") is False:
         return "reserved first parameter (self/cls) is not the instance/class"
     w = case.get("wrapper", "sync")
-    if w in ("sync", "coro"):
+    if w in ("sync", "coro") and "ret_direct" in out:
+        d = out["ret_direct"]
+        if "ok" in d:
+            if "err" in out or out.get("ret") != d["ok"]:
+                return (f"return value: the annotation itself turns {case['retval']['v']!r} into {d['ok']}, the decorated "
+                        f"function returned {out.get('ret')} err={out.get('err')}")
+            # (`ret_conforms` — the recorded C01-style Conforms verdict on the value the type itself produced — is not
+            # judged here: whether a combinator's own output conforms to it is C01/C09's subject, e.g. `None & int`
+            # turns None into 0; C08's clause is that the function's glue adds or removes nothing.)
+        elif out.get("err") != "ParseError":
+            return (f"return value {case['retval']['v']!r} is rejected by the return annotation {case.get('ret')} itself "
+                    f"({d['err']}) but the decorated function returned {out.get('ret')} err={out.get('err')}")
+    if w in ("sync", "coro") and (case.get("ret") is None or isinstance(case.get("ret"), str)) \
+            and case.get("retval", {}).get("v") is not None:
         rv = case.get("retval", {}).get("v")
         ok, c = conv(case.get("ret"), rv)
         if ok:
@@ -1146,7 +1332,7 @@ def verdict(case, out, ex, nobind_err=None):
                 return f"return value: expected {enc(c)}, got {out.get('ret')} err={out.get('err')}"
         elif out.get("err") != "ParseError":
             return f"return value {rv!r} does not conform to {case.get('ret')} but no ParseError: {out.get('ret')} {out.get('err')}"
-    elif case.get("gen") is None:
+    if w not in ("sync", "coro") and case.get("gen") is None:
         if out.get("trace") != [["y", enc(0)]]:
             return f"generator trace {out.get('trace')}"
     return None
@@ -1196,9 +1382,16 @@ CTX_FLAGS = {
 SELF = {"o": "self"}
 
 
+def model_param(p):
+    q = dict(p, py_default=p["kind"] in ("po", "pk", "ko") and param_default_src(p) is not None)
+    if attach_of(p):
+        q["meta"] = META[attach_of(p)]
+    return q
+
+
 def full_params(case):
     first = FIRST[case.get("ctx", "func")]
-    ps = [dict(p, py_default=p["kind"] in ("po", "pk", "ko") and param_default_src(p) is not None) for p in case["params"]]
+    ps = [model_param(p) for p in case["params"]]
     return ([{"name": first, "kind": "pk"}] if first else []) + ps
 
 
@@ -1224,6 +1417,8 @@ def is_nontrivial(case, ex):
     if case["kind"] == "gen":
         g = case["gen"]
         return bool(g["steps"] or g.get("chain")) and (any(x is not None for x in g["sends"]) or any(g.get(k) for k in ("yt", "st", "rt")))
+    if case.get("ret") is not None and not isinstance(case["ret"], str):
+        return ex[0] in ("ok",)
     return ex[0] in ("ok", "fail") and len(case["params"]) >= 1 and (len(case["args"]) + len(case["kwargs"]) >= 1
                                                                        or any(p.get("default") for p in case["params"]))
 
@@ -1238,9 +1433,11 @@ SHAPES = {
            {"name": "_x", "default": {"v": 9}}],
     "pk": [{"name": "b", "ann": "int"}, {"name": "b", "ann": "int", "default": {"v": 2}},
            {"name": "b", "ann": "int", "default": {"v": 2}, "alias": "B1"},
-           {"name": "d", "ann": "int", "default": {"v": 4}, "ci": True}, {"name": "_y", "default": {"v": 9}}],
+           {"name": "d", "ann": "int", "default": {"v": 4}, "ci": True}, {"name": "_y", "default": {"v": 9}},
+           {"name": "g", "ann": "int", "default": {"v": 6}, "alias_from": ["G2"], "cons": "ge0", "attach": "annotated_doc"}],
     "vp": [{"name": "r", "ann": "int"}, {"name": "r"}],
-    "ko": [{"name": "c", "ann": "int"}, {"name": "c", "default": {"v": 2}}, {"name": "_z", "default": {"v": 9}}],
+    "ko": [{"name": "c", "ann": "int"}, {"name": "c", "default": {"v": 2}}, {"name": "_z", "default": {"v": 9}},
+           {"name": "h", "ann": "int", "alias": "H1", "cons": "ge0", "attach": "nested"}],
     "vk": [{"name": "k", "ann": "int"}],
 }
 
@@ -1278,7 +1475,7 @@ def exhaustive_cases():
         keys = []
         for p in params:
             if p["kind"] in ("pk", "ko"):
-                keys.append(p.get("alias") or (p["name"].upper() if p.get("ci") else p["name"]))
+                keys.append(p.get("alias") or (p.get("alias_from") or [None])[0] or (p["name"].upper() if p.get("ci") else p["name"]))
             elif p["kind"] == "po" and any(q["kind"] == "vk" for q in params):
                 keys.append(p["name"])
         keys.append("zz")
@@ -1286,7 +1483,7 @@ def exhaustive_cases():
             for first_bad in ((False, True) if n else (False,)):
                 args = [enc("x" if (first_bad and i == 0) else str(3 + i)) for i in range(n)]
                 for mask in range(1 << len(keys)):
-                    kwargs = [[k, enc(7 + j)] for j, k in enumerate(keys) if mask >> j & 1]
+                    kwargs = [[k, enc(7 + j if (j + n) % 3 else -1 - j)] for j, k in enumerate(keys) if mask >> j & 1]
                     for dfs in (False, True):
                         cases.append({"kind": "bind", "params": params, "ctx": "func", "wrapper": "sync", "eager": False,
                                       "options": {"data_first_search": dfs}, "retval": {"v": 1}, "args": args,
@@ -1321,12 +1518,25 @@ class C08(Check):
         if tier != "search":
             out += exhaustive_gen_cases(3 if tier == "quick" else 4)
             out += option_grid_cases()
+            out += ret_grid_cases()
         if tier == "thorough":
             out += exhaustive_cases()
         for _ in range(n):
             r = rng.random()
             out.append(gen_generator_case(rng) if r < 0.12 else gen_focus_case(rng) if r < 0.3 else gen_binding_case(rng, tier))
         return out
+
+    def evaluate(self, cases):
+        """the implementation first: the model is told what the return annotation, measured in isolation, does"""
+        from .common import run_driver, run_impl
+        impl_outs = run_impl(self.impl, cases, self.case_timeout, extra_env=self.impl_env)
+        lines = []
+        for c, io in zip(cases, impl_outs):
+            line = self.model_line(c)
+            if isinstance(io, dict) and "ret_direct" in io and "retval" in line:
+                line["ret_measured"] = io["ret_direct"]
+            lines.append(line)
+        return impl_outs, run_driver(self.driver, lines)
 
     def model_line(self, case):
         if case["kind"] == "gen":
@@ -1337,7 +1547,8 @@ class C08(Check):
         bound = FIRST[ctx] is not None
         line = {"kind": "bind", "params": full_params(case), "ctx": CTX_FLAGS[ctx], "options": case.get("options") or {},
                 "args": ([SELF] if bound else []) + case["args"], "kwargs": case["kwargs"],
-                "spec_params": case["params"], "spec_args": case["args"], "ret": case.get("ret")}
+                "spec_params": [model_param(p) for p in case["params"]], "spec_args": case["args"],
+                "ret": case.get("ret") if isinstance(case.get("ret"), str) else None}
         if case.get("retval") and case.get("wrapper", "sync") in ("sync", "coro"):
             line["retval"] = enc(case["retval"]["v"])
         return line
